@@ -194,6 +194,8 @@ def lensAgainst(Uin, wvl, d1, f):
 
     #Evaluate the Fresnel-Kirchoff integral but with the quadratic
     #phase factor inside cancelled by the phase of the lens
-    Uout = numpy.exp( 1j*k/(2*f) * (x2**2 + y2**2) )/ (1j*wvl*f) * fouriertransform.ft2( Uin, d1)
+    #(in double precision whatever the storage type of the field: numpy's FFT
+    #would otherwise run in single precision for float32 / complex64 input)
+    Uout = numpy.exp( 1j*k/(2*f) * (x2**2 + y2**2) )/ (1j*wvl*f) * fouriertransform.ft2( numpy.asarray(Uin, dtype=complex), d1)
 
     return Uout
